@@ -262,6 +262,9 @@ def gen_grid(rng):
         case["norm"] = rng.choice(NORMS)
     if rng.random() < 0.15:
         case["stop_only"] = True
+    if rng.random() < 0.35:
+        # bounds spelled as numpy scalars / arrays (as taken from poly.exponents: uint32)
+        case["bound_dtype"] = rng.choice(["uint8", "uint32", "int64", "uint64", "int32"])
     return case
 
 
@@ -312,6 +315,13 @@ def run_grid_case(case, ctx, kernel):
         start = 0
     try:
         want = expected_indices(start, stop, dims, case["trunc"], graded, reverse)
+        if case.get("bound_dtype"):
+            dtype = case["bound_dtype"]
+            start = numpy.array(start, dtype=dtype) if isinstance(start, list) else \
+                numpy.dtype(dtype).type(start)
+            stop = numpy.array(stop, dtype=dtype) if isinstance(stop, list) else \
+                numpy.dtype(dtype).type(stop)
+            facts["bound_dtype"] = dtype
     except Ambiguous:
         ctx.count("skipped_ambiguous")
         return
